@@ -29,6 +29,16 @@ class Repo:
         """roots: [(directory, package)]; rewrite: optional fn(modname, source) -> source (in-memory mutant gate)"""
         if roots is None:
             roots = [(REPO, 'pgpy'), (VERIF, 'specs')]
+        if rewrite is None and os.environ.get('PYVC_MUTATE'):
+            # testing aid (mutant gate): 'module::old text::new text' applied to the source text in memory only
+            mmod, mold, mnew = os.environ['PYVC_MUTATE'].split('::')
+
+            def rewrite(rel, src, mmod=mmod, mold=mold, mnew=mnew):
+                if rel == mmod:
+                    if mold not in src:
+                        raise ToolLimit('PYVC_MUTATE: text not found in %s' % rel)
+                    return src.replace(mold, mnew)
+                return src
         self.roots = roots
         self.root = roots[0][0]
         self.modules = {}        # modname -> ast.Module
@@ -430,7 +440,7 @@ PY_BUILTINS = {'itertools', 'reversed', 'len', 'int', 'bool', 'bytes', 'bytearra
                'list', 'tuple', 'set', 'super', 'all', 'any', 'ValueError', 'TypeError', 'NotImplementedError', 'Exception',
                'IndexError', 'KeyError', 'hashlib', 'math', 'binascii', 'os', 'str', 'getattr', 'setattr', 'chr', 'ord',
                'abs', 'enumerate', 'zip', 'sorted', 'next', 'hasattr', 'dict', 'divmod', 'object', 'OverflowError',
-               'AttributeError', 'StopIteration', 'AssertionError', 'ZeroDivisionError', 'callable', 'type', 'id', 'print'}
+               'AttributeError', 'StopIteration', 'NotImplemented', 'PGPError', 'RuntimeError', 'UnicodeDecodeError', 'AssertionError', 'ZeroDivisionError', 'callable', 'type', 'id', 'print'}
 
 BL = z3.Function('BL', z3.IntSort(), z3.IntSort())
 BE = z3.Function('BE', z3.IntSort(), z3.IntSort(), BYTES)
@@ -811,6 +821,10 @@ class Exec:
             return z3.BoolVal(l.ref == r.ref)
         if type(l) != type(r):
             return z3.BoolVal(False)
+        if isinstance(l, VBuiltin):
+            return z3.BoolVal(l.name == r.name and l.bound is r.bound)
+        if isinstance(l, VClass):
+            return z3.BoolVal(l.qual == r.qual)
         raise ToolLimit('eq %s %s' % (type(l).__name__, type(r).__name__))
 
     def ev_many(self, nodes, env, st, ctx):
@@ -844,6 +858,23 @@ class Exec:
             return self.repeat(l, r, st)
         if isinstance(l, VStr) and isinstance(op, ast.Mod):
             return [(st, VStr(s='<fmt>'))]
+        if isinstance(l, VSet) and isinstance(r, VSet) and isinstance(op, (ast.BitOr, ast.BitAnd, ast.Sub)):
+            if isinstance(op, ast.BitOr):
+                return [(st, VSet(l.items + r.items))]
+            raise ToolLimit('set operator %s' % type(op).__name__)
+        if isinstance(l, (VList, VTuple)) and isinstance(r, (VList, VTuple)) and isinstance(op, ast.Add):
+            its = self.items(l, st) + self.items(r, st)
+            return [(st, self.new_list(st, its) if isinstance(l, VList) else VTuple(its))]
+        if isinstance(l, VStr) and isinstance(r, VStr) and isinstance(op, ast.Add) and l.s is not None and r.s is not None \
+                and isinstance(l.s, str) and isinstance(r.s, str):
+            return [(st, VStr(s=l.s + r.s))]
+        if isinstance(l, VObj):
+            dn = {ast.BitAnd: '__and__', ast.BitOr: '__or__', ast.Add: '__add__', ast.Sub: '__sub__'}.get(type(op))
+            if dn:
+                for s2, m in self.getattr(l, dn, st, {'mod': self.repo.classes[l.cls].module if l.cls in self.repo.classes else 'pgpy'}, n):
+                    if isinstance(m, Raise):
+                        raise ToolLimit('operator %s on %s' % (dn, l.cls))
+                    return self.call(m, [r], {}, s2, {'mod': 'pgpy'}, n, None)
         a, b = self.as_int(l), self.as_int(r)
         T = type(op)
         if T is ast.Add:
@@ -1024,6 +1055,13 @@ class Exec:
             if lk and lk[0] == 'const':
                 return self.ev(lk[2], st.new_env(None), st, {'mod': self.repo.classes[lk[1]].module})
             raise ToolLimit('class attr %s.%s' % (o.qual, attr))
+        if isinstance(o, VInt) and o.enum:
+            for c in self.repo.mro(o.enum):
+                if (c, attr) in self.hooks:
+                    hk = self.hooks[(c, attr)]
+                    if getattr(hk, 'is_method', False):
+                        return [(st, VBuiltin('hook', bound=(hk, o)))]
+                    return hk(self, st, o, [])
         if isinstance(o, VInt) and o.enum and not self.repo.is_enum(o.enum):
             lk = self.repo.lookup(o.enum, attr)
             if lk and lk[0] == 'method':
@@ -1198,10 +1236,21 @@ class Exec:
             for s2, t in self.fork(st, ok):
                 res.append((s2, VInt(x, enum=f.qual) if t else Raise('ValueError', n.lineno)))
             return res
+        for c in self.repo.mro(f.qual):
+            if (c, '__call__') in self.hooks:
+                return self.hooks[(c, '__call__')](self, st, f, args)
         lk = self.repo.lookup(f.qual, '__new__')
         if lk:
             return self.call_func(VFunc(lk[2], None, cls=lk[1], self_val=f, mod=self.repo.classes[lk[1]].module), args, kws, st, ctx)
-        raise ToolLimit('instantiate %s' % f.qual)
+        # plain object: fresh reference, then __init__ along the MRO
+        o = VObj(f.qual, 'obj!%d' % next(_fresh))
+        lk = self.repo.lookup(f.qual, '__init__')
+        if lk is None:
+            return [(st, o)]
+        res = []
+        for s2, r in self.call_func(VFunc(lk[2], None, cls=lk[1], self_val=o, mod=self.repo.classes[lk[1]].module), args, kws, st, ctx):
+            res.append((s2, r if isinstance(r, Raise) else o))
+        return res
 
     def call_func(self, f, args, kws, st, ctx, depth=0):
         node = f.node
@@ -1298,8 +1347,33 @@ class Exec:
             r = z3.If(c, z, r)
         return mk(r)
 
+    def is_generator(self, node):
+        stack = list(node.body)
+        while stack:
+            x = stack.pop()
+            if isinstance(x, (ast.Yield, ast.YieldFrom)):
+                return True
+            if isinstance(x, (ast.FunctionDef, ast.Lambda, ast.ClassDef)):
+                continue
+            stack.extend(ast.iter_child_nodes(x))
+        return False
+
     def call_body(self, node, env, st, cctx):
         res = []
+        gen = None
+        if self.yield_encoder is None and self.is_generator(node):
+            gen = 'gen!%d' % next(_fresh)
+            st.heap[gen] = ()
+            cctx = dict(cctx, gen=gen)
+        if gen is not None:
+            for s, ctl in self.block(node.body, env, st, cctx):
+                if isinstance(ctl, Raise):
+                    res.append((s, ctl))
+                elif isinstance(ctl, (Ret, Next)):
+                    res.append((s, VList(gen)))
+                else:
+                    raise ToolLimit('break/continue escaped function')
+            return res
         for s, ctl in self.block(node.body, env, st, cctx):
             if isinstance(ctl, Ret):
                 res.append((s, ctl.v))
@@ -1354,8 +1428,50 @@ class Exec:
             if name == 'isinstance':
                 tags = self.typetags(A[0])
                 want = A[1].items if isinstance(A[1], VTuple) else [A[1]]
-                names = [w.name if isinstance(w, VBuiltin) else w.qual.split('.')[-1] for w in want]
+                names = []
+                for w in want:
+                    if isinstance(w, VBuiltin):
+                        names.append(w.name.split('.')[-1])
+                    elif isinstance(w, VClass):
+                        names.append(w.qual.split('.')[-1])
+                    else:
+                        raise ToolLimit('isinstance against %s' % type(w).__name__)
                 return [(st, VBool(any(w in tags for w in names)))]
+            if name == 'type':
+                t = self.typetags(A[0])[0]
+                if isinstance(A[0], VObj):
+                    return [(st, VClass(A[0].cls))]
+                return [(st, VBuiltin(t))]
+            if name == 'getattr':
+                if not (isinstance(A[1], VStr) and isinstance(A[1].s, str)):
+                    raise ToolLimit('getattr with non-constant name')
+                if isinstance(A[0], VBuiltin) and A[0].bound is None:
+                    return [(st, VBuiltin(A[0].name + '.' + A[1].s))]
+                res = []
+                for s2, v in self.getattr(A[0], A[1].s, st, ctx, n):
+                    if isinstance(v, Raise) and v.exc.startswith('AttributeError') and len(A) > 2:
+                        res.append((s2, A[2]))
+                    else:
+                        res.append((s2, v))
+                return res
+            if name == 'hasattr':
+                if not (isinstance(A[1], VStr) and isinstance(A[1].s, str)):
+                    raise ToolLimit('hasattr with non-constant name')
+                res = []
+                for s2, v in self.getattr(A[0], A[1].s, st, ctx, n):
+                    res.append((s2, VBool(not (isinstance(v, Raise) and v.exc.startswith('AttributeError')))))
+                return res
+            if name == 'setattr':
+                if not (isinstance(A[1], VStr) and isinstance(A[1].s, str)):
+                    raise ToolLimit('setattr with non-constant name')
+                return [(s2, c if isinstance(c, Raise) else VNone()) for s2, c in self.setattr(A[0], A[1].s, A[2], st, ctx, n)]
+            if name == 'collections.namedtuple':
+                fields = [x.s for x in self.items(A[1], st)]
+                return [(st, VBuiltin('namedtuple', bound=('nt', A[0].s, tuple(fields))))]
+            if name.split('.')[0] in ('warnings', 'logging') or name in ('print',):
+                return [(st, VNone())]
+            if name.startswith('hashes.'):
+                return [(st, VStr(s=('opaque', name)))]
             if name == 'range':
                 lo, hi = (VInt(0), A[0]) if len(A) == 1 else (A[0], A[1])
                 return [(st, VRange(lo, hi))]
@@ -1401,12 +1517,30 @@ class Exec:
             if name == 'int.from_bytes':
                 return self.from_bytes(A[0], st)
             if name == 'sum':
-                raise ToolLimit('sum')
+                its = self.iter_items(A[0], st)
+                return [(st, VInt(zsum([self.as_int(x) for x in its])))]
+            if name in ('all', 'any'):
+                its = [self.truth(x, st) for x in self.iter_items(A[0], st)]
+                if name == 'all':
+                    return [(st, VBool(z3.And(*its) if its else z3.BoolVal(True)))]
+                return [(st, VBool(z3.Or(*its) if its else z3.BoolVal(False)))]
+            if name == 'abs':
+                a = self.as_int(A[0])
+                return [(st, VInt(z3.If(a >= 0, a, -a)))]
+            if name == 'tuple':
+                return [(st, VTuple(self.iter_items(A[0], st)))]
+            if name == 'set':
+                return [(st, VSet(self.iter_items(A[0], st) if A else []))]
             raise ToolLimit('builtin %s' % name)
         # bound methods
         if name == 'hook':
             hk, o = b
             return hk(self, st, o, A)
+        if name == 'namedtuple' and isinstance(b, tuple) and b[0] == 'nt':
+            o = VObj('namedtuple:' + b[1], 'nt!%d' % next(_fresh))
+            for fname, v in zip(b[2], A):
+                st.heap[(o.ref, fname)] = v
+            return [(st, o)]
         if name == 'superobj.__new__' or (isinstance(b, tuple) and name == '__new__'):
             cls = A[0]
             return [(st, VInt(self.as_int(A[1]), enum=cls.qual if isinstance(cls, VClass) else None))]
@@ -1478,6 +1612,10 @@ class Exec:
                 return [(st, VInt(hashlib.new(b.alg).digest_size))]
         if isinstance(b, VDict) and name == 'values':
             return [(st, VTuple([v for _, v in b.pairs]))]
+        if isinstance(b, VDict) and name == 'keys':
+            return [(st, VTuple([k for k, _ in b.pairs]))]
+        if isinstance(b, VDict) and name == 'items':
+            return [(st, VTuple([VTuple([k, v]) for k, v in b.pairs]))]
         if isinstance(b, VList) and name == 'append':
             st.heap[b.cell] = st.heap[b.cell] + (A[0],)
             return [(st, VNone())]
@@ -1514,27 +1652,59 @@ class Exec:
         return self.comprehension(n, env, st, ctx)
 
     def comprehension(self, n, env, st, ctx):
-        if len(n.generators) != 1 or n.generators[0].ifs:
-            raise ToolLimit('comprehension shape')
-        g = n.generators[0]
-        res = []
-        for s, it in self.ev(g.iter, env, st, ctx):
-            items = self.iter_items(it, s)
-            outs = [(s, [])]
-            for item in items:
-                nxt = []
-                for s1, acc in outs:
-                    e2 = s1.new_env(env)
-                    self.assign_target(g.target, item, e2, s1, ctx)
-                    for s2, v in self.ev(n.elt, e2, s1, ctx):
-                        nxt.append((s2, acc + [v]))
-                outs = nxt
-            res += [(s1, self.new_list(s1, acc)) for s1, acc in outs]
-        return res
+        """list/generator comprehension over unrollable iterables (also nested generators and `if` filters)"""
+        def go(gi, e, s):
+            # -> [(state, [values]) | (state, Raise)]
+            if gi == len(n.generators):
+                return [(s2, v if isinstance(v, Raise) else [v]) for s2, v in self.ev(n.elt, e, s, ctx)]
+            g = n.generators[gi]
+            res = []
+            for s0, it in self.ev(g.iter, e, s, ctx):
+                if isinstance(it, Raise):
+                    res.append((s0, it))
+                    continue
+                items = self.iter_items(it, s0)
+                outs = [(s0, [])]
+                for item in items:
+                    nxt = []
+                    for s1, acc in outs:
+                        if isinstance(acc, Raise):
+                            nxt.append((s1, acc))
+                            continue
+                        e2 = s1.new_env(e)
+                        self.assign_target(g.target, item, e2, s1, ctx)
+                        conds = [(s1, True)]
+                        for cnd in g.ifs:
+                            nc = []
+                            for s2, keep in conds:
+                                if keep is not True:
+                                    nc.append((s2, keep))
+                                    continue
+                                for s3, c in self.ev(cnd, e2, s2, ctx):
+                                    if isinstance(c, Raise):
+                                        nc.append((s3, c))
+                                        continue
+                                    for s4, t in self.fork(s3, self.truth(c, s3)):
+                                        nc.append((s4, True if t else False))
+                            conds = nc
+                        for s2, keep in conds:
+                            if isinstance(keep, Raise):
+                                nxt.append((s2, keep))
+                            elif keep is False:
+                                nxt.append((s2, acc))
+                            else:
+                                for s3, vs in go(gi + 1, e2, s2):
+                                    nxt.append((s3, vs if isinstance(vs, Raise) else acc + vs))
+                    outs = nxt
+                res += outs
+            return res
+        return [(s1, acc if isinstance(acc, Raise) else self.new_list(s1, acc)) for s1, acc in go(0, env, st)]
 
     def iter_items(self, it, st):
         if isinstance(it, (VList, VTuple, VSet)):
             return self.items(it, st)
+        if isinstance(it, VDict):
+            return [k for k, _ in it.pairs]
         if isinstance(it, VRange):
             lo, hi = it.lo.conc(), self.concretize(st, self.as_int(it.hi), 1)
             if lo is None or hi is None or len(hi) != 1:
@@ -1581,11 +1751,55 @@ class Exec:
                 out.append((s, VNone()))
                 out.append((s2, Raise('BlockException', n.lineno)))
             return out
+        if self.yield_encoder is None:
+            cell = ctx.get('gen')
+            if cell is None:
+                raise ToolLimit('yield outside a generator frame')
+            for s, v in (self.ev(n.value, env, st, ctx) if n.value is not None else [(st, VNone())]):
+                if isinstance(v, Raise):
+                    out.append((s, v))
+                    continue
+                s.heap[cell] = s.heap[cell] + (v,)
+                out.append((s, VNone()))
+            return out
         for s, v in self.ev(n.value, env, st, ctx):
             enc = self.yield_encoder(self, s, v)
             s.ghost['yielded'] = z3.Concat(s.ghost['yielded'], z3.Unit(enc)) if 'yielded' in s.ghost else z3.Unit(enc)
             out.append((s, VNone()))
         return out
+
+    def ev_YieldFrom(self, n, env, st, ctx):
+        cell = ctx.get('gen')
+        if cell is None or self.yield_encoder is not None:
+            raise ToolLimit('yield from outside a plain generator frame')
+        out = []
+        for s, v in self.ev(n.value, env, st, ctx):
+            if isinstance(v, Raise):
+                out.append((s, v))
+                continue
+            s.heap[cell] = s.heap[cell] + tuple(self.iter_items(v, s))
+            out.append((s, VNone()))
+        return out
+
+    def st_ImportFrom(self, n, env, st, ctx):
+        src = self.repo._abs(ctx['mod'], n.level, n.module)
+        for a in n.names:
+            q = self.repo.resolve_name(src, a.name) if src in self.repo.modules else None
+            if q in self.repo.classes:
+                v = VClass(q)
+            elif q in self.repo.functions:
+                v = VFunc(self.repo.functions[q], None, mod=q.rsplit('.', 1)[0])
+            elif (src + '.' + a.name) in self.repo.modules:
+                v = VModule(src + '.' + a.name)
+            else:
+                v = VBuiltin(a.name)
+            st.envs[env.eid][a.asname or a.name] = v
+        return [(st, Next())]
+
+    def st_Import(self, n, env, st, ctx):
+        for a in n.names:
+            st.envs[env.eid][(a.asname or a.name).split('.')[0]] = VModule(a.name) if a.name in self.repo.modules else VBuiltin(a.name)
+        return [(st, Next())]
 
     def st_Pass(self, n, env, st, ctx):
         return [(st, Next())]
